@@ -317,7 +317,7 @@ def check_property(prop, tier, seed):
         log("check %s: infrastructure trouble in part of the run; the violations below passed the replay gate on their own" % prop)
     log("check %s tier=%s seed=%d: %d runs, %d distinct non-trivial orders, %d violations, %d known-finding runs, %.1fs" %
         (prop, tier, seed, runs, len(state["hashes"]), len(state["violations"]), state["known_runs"], wall))
-    if runs == 0:
+    if runs == 0 and not state["violations"]:
         sys.stderr.write("INFRA: no run executed\n")
         return 2
     if state["violations"]:
